@@ -94,6 +94,8 @@ var targets = []target{
 		}),
 		conds: merge(timerConds, map[string]string{
 			"trd, ok := s.rd.Load().(time.Time); ok && !trd.IsZero()": "CDeadlineSet RD",
+			// anticipated repair of the stale-timer timeouts (B11, several callers): re-validate on <-c
+			"trd, ok := s.rd.Load().(time.Time); !ok || trd.IsZero() || time.Now().Before(trd)": "CDeadlineNotDue RD",
 			"len(s.bufptr) > 0":                         "CBufNonEmpty",
 			"size := s.kcp.PeekSize(); size > 0":        "CPeekPositive",
 			"s.kcp.PeekSize() > 0":                      "CPeekPositive", // anticipated repair of F4
@@ -127,8 +129,9 @@ var targets = []target{
 			"atomic.AddUint64(&DefaultSnmp.BytesSent, uint64(n))":                                "SCall PNop",
 		}),
 		conds: merge(timerConds, map[string]string{
-			"twd, ok := s.wd.Load().(time.Time); ok && !twd.IsZero()": "CDeadlineSet WD",
-			"waitsnd < int(s.kcp.snd_wnd)":                            "CRoom",
+			"twd, ok := s.wd.Load().(time.Time); ok && !twd.IsZero()":                           "CDeadlineSet WD",
+			"twd, ok := s.wd.Load().(time.Time); !ok || twd.IsZero() || time.Now().Before(twd)": "CDeadlineNotDue WD",
+			"waitsnd < int(s.kcp.snd_wnd)":                                                      "CRoom",
 		}),
 		comms: map[string]string{
 			"<-s.chWriteEvent":       "RcvWriteEvent",
